@@ -2,7 +2,7 @@
 //! delivery schedules, fault positions and the scheduling policy.
 
 use crate::corpus::{soup, Program};
-use crate::progen::progen;
+use crate::progen::{big, progen};
 use crate::faults::{self, SrcFault};
 use crate::rng::Rng;
 use crate::sched::SchedSpec;
@@ -15,7 +15,25 @@ pub fn job_of(p: &Program) -> JobSpec {
     JobSpec::plain(&p.name, &p.source, &p.includes, &p.args)
 }
 
+/// Byte-at-a-time delivery of a 300 KB text (or of its megabyte of assembly) is hundreds of thousands
+/// of scheduling points for nothing new: large jobs get coarse chunks.
+fn coarsen(job: &mut JobSpec) {
+    if job.source.0.len() > 32 * 1024 {
+        for s in [&mut job.reader, &mut job.writer] {
+            let seed = match s.chunks {
+                ChunkSpec::Whole | ChunkSpec::Explicit(_) => continue,
+                ChunkSpec::Fixed(n) => n as u64,
+                ChunkSpec::Seeded { seed, .. } => seed,
+            };
+            s.chunks = ChunkSpec::Seeded { seed, cap: 16 * 1024 };
+        }
+    }
+}
+
 fn pick_program(r: &mut Rng, corpus: &[Program]) -> Program {
+    if r.chance(1, 160) {
+        return big(r.next_u64());
+    }
     match r.below(4) {
         0 => soup(r.next_u64()),
         1 => progen(r.next_u64()),
@@ -117,7 +135,15 @@ pub fn c05_world(seed: u64, corpus: &[Program]) -> (World, Dims) {
     }
     let nthreads = if d.interleave { 2 + r.usize_below(2) } else { 1 + r.usize_below(2) };
     let njobs = if d.history || d.interleave { (nthreads + r.usize_below(4)).max(2) } else { nthreads };
-    let focus = pick_program(&mut r, corpus);
+    // big-victim mode: a large program read in pieces while small ones start and finish around it
+    let big_victim = r.chance(1, 400);
+    if big_victim {
+        d.interleave = true;
+        d.rdeliv = true;
+    }
+    let nthreads = if big_victim { nthreads.max(2) } else { nthreads };
+    let njobs = if big_victim { njobs.max(nthreads + 1) } else { njobs };
+    let focus = if big_victim { big(r.next_u64()) } else { pick_program(&mut r, corpus) };
     let mut jobs: Vec<JobSpec> = Vec::new();
     for j in 0..njobs {
         let p = if j == 0 || r.chance(1, 3) {
@@ -140,6 +166,7 @@ pub fn c05_world(seed: u64, corpus: &[Program]) -> (World, Dims) {
             let e = r.chance(1, 2);
             job.writer = stream(&mut r, true, e);
         }
+        coarsen(&mut job);
         jobs.push(job);
     }
     // history made of siblings: the job that runs just before job k on its thread is a slightly
@@ -341,6 +368,7 @@ pub fn c16_world(seed: u64, corpus: &[Program]) -> World {
     let with_inc: Vec<usize> = (0..corpus.len()).filter(|i| !corpus[*i].includes.is_empty()).collect();
     let pi = if !with_inc.is_empty() && r.chance(1, 6) { *r.pick(&with_inc) } else { r.usize_below(corpus.len()) };
     let p = match r.below(8) {
+        _ if r.chance(1, 400) => big(r.next_u64()),
         0 => soup(r.next_u64()),
         1 | 2 => progen(r.next_u64()),
         _ => corpus[pi].clone(),
@@ -434,6 +462,7 @@ pub fn c16_world(seed: u64, corpus: &[Program]) -> World {
             job.writer.error_flavor = r.below(4) as u8;
         }
     }
+    coarsen(&mut job);
     let mut w = World::solo("C16", job);
     if r.chance(1, 8) {
         // history: something else ran on this thread before
